@@ -31,6 +31,10 @@ type Result struct {
 	Status Status
 	Tree   *refnbt.Value
 	Reason string // for Reject / Lenient
+	// IfAccepted is set for a Lenient text all of whose lenient constructs still have one reading among
+	// SNBT readers that accept them (a decimal written ".5" or "1e3f", the escapes \n \t \r \b \f): a parser
+	// may reject such a text, but if it accepts it, this is the value.
+	IfAccepted *refnbt.Value
 }
 
 type parser struct {
@@ -38,6 +42,7 @@ type parser struct {
 	p       int
 	lenient string
 	nLen    int // number of lenient events (the reason string keeps only the first)
+	nTyped  int // how many of them still pin the value down if the text is accepted
 	depth   int
 }
 
@@ -50,6 +55,11 @@ func (p *parser) lenientBecause(r string) {
 	if p.lenient == "" {
 		p.lenient = r
 	}
+}
+
+func (p *parser) lenientButTyped(r string) {
+	p.nTyped++
+	p.lenientBecause(r)
 }
 
 func isSpace(c byte) bool { return c == ' ' || c == '\t' || c == '\r' || c == '\n' }
@@ -93,7 +103,11 @@ func Parse(text []byte) (res Result) {
 		p.fail("trailing garbage after top-level value")
 	}
 	if p.lenient != "" {
-		return Result{Status: Lenient, Reason: p.lenient}
+		res := Result{Status: Lenient, Reason: p.lenient}
+		if p.nTyped == p.nLen {
+			res.IfAccepted = v
+		}
+		return res
 	}
 	return Result{Status: OK, Tree: v}
 }
@@ -145,6 +159,10 @@ func (p *parser) quoted() string {
 			p.p++
 			if e == '\\' || e == q {
 				sb.WriteByte(e)
+			} else if ctl, ok := map[byte]byte{'n': '\n', 't': '\t', 'r': '\r', 'b': '\b', 'f': '\f'}[e]; ok {
+				// not in the agreement grammar (older readers reject it), but every reader that accepts it means the control character
+				p.lenientButTyped("escape \\" + string(e))
+				sb.WriteByte(ctl)
 			} else {
 				// other escapes are not part of the agreement grammar
 				p.lenientBecause("escape other than \\\\ and the quote character")
@@ -246,9 +264,43 @@ func Literal(w string) (v *refnbt.Value, ok bool) {
 	return refnbt.St(w), true
 }
 
+var (
+	reMojFloat  = regexp.MustCompile(`^([+-]?(?:(?:0|[1-9][0-9]*)[.]?|(?:0|[1-9][0-9]*)?[.][0-9]+)(?:[eE][+-]?[0-9]+)?)([fFdD])$`)
+	reMojDouble = regexp.MustCompile(`^[+-]?(?:(?:0|[1-9][0-9]*)[.]|(?:0|[1-9][0-9]*)?[.][0-9]+)(?:[eE][+-]?[0-9]+)?$`)
+)
+
+// mojangNumber reads the decimal forms the vanilla reader takes for numbers beyond the agreement grammar:
+// a missing integer or fraction part (".5", "5."), an exponent, with or without f/d suffix.
+func mojangNumber(w string) *refnbt.Value {
+	if m := reMojFloat.FindStringSubmatch(w); m != nil {
+		bits := 64
+		if m[2] == "f" || m[2] == "F" {
+			bits = 32
+		}
+		f, err := strconv.ParseFloat(m[1], bits)
+		if err != nil {
+			return nil
+		}
+		if bits == 32 {
+			return refnbt.Fl(math.Float32bits(float32(f)))
+		}
+		return refnbt.Do(math.Float64bits(f))
+	}
+	if reMojDouble.MatchString(w) {
+		if f, err := strconv.ParseFloat(w, 64); err == nil {
+			return refnbt.Do(math.Float64bits(f))
+		}
+	}
+	return nil
+}
+
 func (p *parser) literal(w string) *refnbt.Value {
 	v, ok := Literal(w)
 	if !ok {
+		if n := mojangNumber(w); n != nil {
+			p.lenientButTyped("decimal form outside the agreement grammar: " + trunc(w))
+			return n
+		}
 		p.lenientBecause("literal outside the agreement grammar: " + trunc(w))
 		return refnbt.St(w)
 	}
